@@ -144,7 +144,7 @@ func fnUsesOld(fn *ssa.Function) bool {
 			if call, ok := ins.(*ssa.Call); ok {
 				if callee := call.Call.StaticCallee(); callee != nil {
 					k := FnKey(callee)
-					if k == VspecPath+".Old" || k == VspecPath+".Old2" || k == VspecPath+".Old3" {
+					if k == VspecPath+".Old" || k == VspecPath+".Old2" || k == VspecPath+".Old3" || k == VspecPath+".MapSame" || k == VspecPath+".MapSameExcept" {
 						res = true
 					}
 				}
